@@ -5,12 +5,9 @@ import os, re, json, time, shutil, subprocess
 import vlib
 
 def build_vfunc(scratch):
-    hdir = os.path.join(vlib.VERIF, "harness")
-    mod = os.path.join(scratch, "go.mod")
-    open(mod, "w").write(open(os.path.join(hdir, "go.mod.tmpl")).read().replace("@REPO@", vlib.REPO))
-    shutil.copy(os.path.join(vlib.REPO, "go.sum"), os.path.join(scratch, "go.sum"))
+    hdir = vlib.harness_copy(scratch)
     out = os.path.join(scratch, "vfunc")
-    p = vlib.sh(["go", "build", "-tags", "verif", "-modfile", mod, "-o", out, "./cmd/vfunc"], cwd=hdir, env=vlib.GOENV, timeout=1500)
+    p = vlib.sh(["go", "build", "-tags", "verif", "-o", out, "./cmd/vfunc"], cwd=hdir, env=vlib.GOENV, timeout=1500)
     if p.returncode != 0:
         raise vlib.Machinery("vfunc does not build:\n" + (p.stdout + p.stderr)[-3000:])
     return out
